@@ -406,6 +406,8 @@ def run(ctx):
     finally:
         # numeric kernels this property's formulas rest on, pinned as canonical expression trees
         check_kernels(ctx, "C04.K", ['calc_value'])
+        from .kernels import check_leaves
+        check_leaves(ctx, "C04.K", ['emode.entry_is_empty', 'emode.has_entries', 'emode.find_with_tag'])
 
 
 def _reconcile_content(ctx):
